@@ -198,9 +198,12 @@ class Repo:
         res = self.class_attr(rel, clsname, attr)
         if res:
             rr, v = res
-            if isinstance(v, ast.Call) and isinstance(v.func, ast.Name) and v.func.id == "property" and v.args:
-                if isinstance(v.args[0], ast.Name):
+            if isinstance(v, ast.Call) and isinstance(v.func, ast.Name) and v.func.id == "property":
+                if v.args and isinstance(v.args[0], ast.Name):
                     return v.args[0].id
+                for kw in v.keywords:
+                    if kw.arg == "fget" and isinstance(kw.value, ast.Name):
+                        return kw.value.id
         # decorator form
         for rr, cd in self.mro(rel, clsname):
             for node in cd.body:
